@@ -1,4 +1,5 @@
 import OnlVerif.Lemmas.TimerFire
+import OnlVerif.Lemmas.GenTimer19
 import OnlVerif.Props.C19K
 /-!
 # C19 — a Timer fires exactly at its expiry, and stop/restart always take effect
@@ -233,6 +234,91 @@ middle process is delivered after its `Initialize` -/
 example : outsOf (run ex1 [.restart 1, .restart 2, .init 0, .intr 0, .init 1, .intr 1, .init 2, .tick 4, .wake 2 []])
     = some [.fire 4 [1, 2]] := by
   unfold ex1; timer_eval
+
+/-! ### The source, re-translated on every run, *is* the model (bridge theorems)
+
+`Generated/Timer19.lean` is rewritten by `py2lean` (`more.py`) from the current `onl/utils/timer.py` before this file is
+compiled.  `GenTimer19.withModel o s` is the Python object with the five modelled attributes (`timeout`, `start_time`,
+`expire_time`, `auto_restart`, `stopped`) taken from the model state `s` and everything else (effect counters, `raised`, where
+the generator is suspended) from `o`; `GenTimer19.statOf g now` reads the suspension point the translated burst of `run` ends
+in as the model's process status (`yield self.env.timeout(dt)` at `now` = sleeping until `now + dt`; generator ended =
+finished).  All statements hold for every scalar type (`[Num α]`: `ℚ` above, `Float` in the driver). -/
+
+/-- **`Timer.__init__` as written in the source is the model's `create`**: `timeout <= 0` is refused with `ValueError`
+(and nothing is started); otherwise `timeout`, `start_time = now`, `expire_time = start_time + timeout`, `auto_restart`,
+`stopped = False` are set as in `create` and exactly one process is started; and the list stored in `self.args` is
+`normArgs`: `None → []`, a list or tuple as it is, any other value `v → [v]`. -/
+theorem timer_init_generated_eq_model {α : Type} [Num α] (o : Gen.TimerObj α) (t0 timeout : α) (auto : Bool) (a : ArgSpec)
+    (vs : List Int) :
+    (Gen.Timer.init o t0 timeout auto =
+      match create t0 timeout auto a with
+      | .error _ => { o with raised := 2 }
+      | .ok s => GenTimer19.withModel { o with eff_spawn := o.eff_spawn + 1, proc_new := true } s) ∧
+    Gen.Timer.init_args (GenTimer19.pyArgs a) = normArgs a ∧ Gen.Timer.init_args (.tuple vs) = normArgs (.list vs) :=
+  ⟨GenTimer19.init_eq o t0 timeout auto a, GenTimer19.init_args_eq a vs⟩
+
+/-- **One turn of `Timer.run` as written in the source is the model's `loopTest` / `wakeBody`.**  (i) From its start the
+generator tests `env.now < expire_time` and sleeps `expire_time - env.now` or ends — `loopTest`.  (ii) Woken while
+`stopped`, it does not invoke the callback and goes on with the loop test.  (iii) Woken while running, it invokes the
+callback exactly once (`f` is what the callback does to the Python object, `cb` the same calls in the model), then
+re-bases `expire_time = env.now + timeout` iff `auto_restart`, then tests the loop again — `wakeBody`; the callback fires
+with `self.args` at the current instant.  Besides the suspension point nothing but what the callback and the re-base did
+changes.  (The swallowed `Interrupt` around the loop is checked structurally by the translator.) -/
+theorem timer_run_generated_eq_model {α : Type} [Num α] (pid : Nat) (o : Gen.TimerObj α) (s : State α)
+    (f : Gen.TimerObj α → Gen.TimerObj α) :
+    (loopTest pid s = setStat s pid (GenTimer19.statOf (Gen.Timer.run_start (GenTimer19.withModel o s) s.now) s.now) ∧
+     Gen.Timer.run_start (GenTimer19.withModel o s) s.now =
+       GenTimer19.suspendedAs (GenTimer19.withModel o s) (Gen.Timer.run_start (GenTimer19.withModel o s) s.now)) ∧
+    (s.stopped = true →
+      wakeBody pid [] s =
+        .ok (setStat s pid (GenTimer19.statOf (Gen.Timer.run_wake (GenTimer19.withModel o s) s.now f) s.now)) [] ∧
+      Gen.Timer.run_wake (GenTimer19.withModel o s) s.now f =
+        GenTimer19.suspendedAs (GenTimer19.withModel o s) (Gen.Timer.run_wake (GenTimer19.withModel o s) s.now f)) ∧
+    (s.stopped = false → ∀ (cb : List (CbOp α)) (s' : State α) (o' : Gen.TimerObj α), runCb pid cb s = .ok s' →
+      f (GenTimer19.withModel { o with yield_at := 0, yield_dt := Num.ofNat 0, eff_callback := o.eff_callback + 1 } s) =
+        GenTimer19.withModel o' s' → o'.yield_at = 0 →
+      wakeBody pid cb s =
+        .ok (setStat (autoRebase s') pid (GenTimer19.statOf (Gen.Timer.run_wake (GenTimer19.withModel o s) s.now f) s.now))
+          [.fire s.now s.args] ∧
+      Gen.Timer.run_wake (GenTimer19.withModel o s) s.now f =
+        GenTimer19.suspendedAs (GenTimer19.withModel o' (autoRebase s')) (Gen.Timer.run_wake (GenTimer19.withModel o s) s.now f)) :=
+  ⟨GenTimer19.loopTest_eq pid o s, fun hs => GenTimer19.wake_stopped_eq pid o s f hs,
+   fun hs cb s' o' hcb hf ho => GenTimer19.wake_running_eq pid o o' s s' cb f hs hcb hf ho⟩
+
+/-- **`Timer.stop` as written in the source is the model's `stopBody`**: `stopped = True`, `expire_time = env.now`, nothing
+else (no early return, no interrupt). -/
+theorem timer_stop_generated_eq_model {α : Type} [Num α] (o : Gen.TimerObj α) (s : State α) :
+    Gen.Timer.stop (GenTimer19.withModel o s) s.now = GenTimer19.withModel o (stopBody s) :=
+  GenTimer19.stop_eq o s
+
+/-- **`Timer.restart` as written in the source is the model's `restartCall`** on a timer whose `self.proc` is a process
+of the timer (`st`): it always re-bases `start_time = env.now`, `timeout = τ`, `expire_time = start_time + τ`; called from
+the timer's own callback (`env.active_process is self.proc`) it does nothing more; otherwise, iff `self.proc` is alive, it
+interrupts that process — the old one, before `self.proc` is re-bound (`intr_new` stays as it was) — and starts exactly one
+new process; a dead `self.proc` is neither interrupted nor replaced. -/
+theorem timer_restart_generated_eq_model {α : Type} [Num α] (o : Gen.TimerObj α) (s : State α) (active : Option Nat) (tau : α)
+    (st : PStat α) (hp : s.procs[s.proc]? = some st) :
+    (active = some s.proc →
+      restartCall active tau s = .ok (rebase tau s) ∧
+      Gen.Timer.restart (GenTimer19.withModel o s) s.now tau true st.alive = GenTimer19.withModel o (rebase tau s)) ∧
+    (active ≠ some s.proc → st.alive = false →
+      restartCall active tau s = .ok (rebase tau s) ∧
+      Gen.Timer.restart (GenTimer19.withModel o s) s.now tau false false = GenTimer19.withModel o (rebase tau s)) ∧
+    (active ≠ some s.proc → st.alive = true →
+      restartCall active tau s = .ok (spawn { rebase tau s with uq := s.uq ++ [.intr s.proc] }) ∧
+      Gen.Timer.restart (GenTimer19.withModel o s) s.now tau false true =
+        GenTimer19.withModel (GenTimer19.respawned o) (spawn { rebase tau s with uq := s.uq ++ [.intr s.proc] })) :=
+  GenTimer19.restart_eq o s active tau st hp
+
+/-- the translated code on a concrete timer (created at 0 with timeout 1, one-shot): `run` first sleeps 1; woken at 1 with a
+callback that calls `restart(3/2)` on its own timer (re-base only) it sleeps 3/2 more; `restart(2)` from another process at
+1/2 interrupts and respawns once -/
+example :
+    (Gen.Timer.run_start (GenTimer19.withModel ⟨0, 0, 0, false, false, 0, 0, 0, false, false, 0, 0, 0⟩ ex0) (0 : ℚ)).yield_dt = 1 ∧
+    (Gen.Timer.run_wake (GenTimer19.withModel ⟨0, 0, 0, false, false, 0, 0, 0, false, false, 0, 0, 0⟩ ex0) (1 : ℚ)
+      (fun g => Gen.Timer.restart g 1 (3/2) true true)).yield_dt = 3/2 ∧
+    (Gen.Timer.restart (GenTimer19.withModel ⟨0, 0, 0, false, false, 0, 0, 0, false, false, 0, 0, 0⟩ ex0) (1/2 : ℚ) 2 false true).eff_spawn = 1 := by
+  decide +kernel
 
 /-! ### the link to the kernel model (`OnlVerif/Props/C19K.lean`)
 
